@@ -21,7 +21,8 @@ ASSUMPTIONS = ["schemes with memory (differential, offset) are not paired: their
                "(interfaces do not match in the sense of the property); pi/4-QPSK is paired in batch layout",
                "flip clause uses t = floor((d_true-1)/2) and excludes the Reed-Solomon-style family, whose advertised capability is the recorded finding KF-C03-RS-DISTANCE",
                "soft path uses noise_var = 1.0; all LLR signs are right under both channels, so decoders must return the message (C10.a)",
-               "polar encoders accept exactly one block per row; they are paired with modulations whose bits per symbol divide N"]
+               "polar encoders accept exactly one block per row; they are paired with modulations whose bits per symbol divide N",
+               "reuse clause: one pipeline object carries several transmissions in a row (default training mode and eval mode); schemes with alternating constellations keep modulator and demodulator in step"]
 CHK = "c09:check_pair"
 
 
@@ -204,6 +205,63 @@ def check_pair(ctx, cell, case):
         ctx.sample({"cell": cell, "messages": int(len(M)), "blocks_per_message": m, "symbols": int(nsym)})
 
 
+def check_reuse(ctx, cell, case):
+    """the same pipeline object is used for several transmissions (default training mode and eval mode): every one returns its message."""
+    import torch
+    import kaira.channels as C
+    import kaira.modulations as Mo
+    from kaira.constraints.identity import IdentityConstraint
+    from kaira.models.channel_code import ChannelCodeModel
+    spec, dname, s, mode = case["spec"], case["decoder"], case["scheme"], case["mode"]
+    cell = cell or {"code": cell_code(spec)["family"], "decoder": dname, "scheme": s["scheme"], "channel": "perfect_reused", "mode": mode, **{k: v for k, v in s.items() if k != "scheme"}}
+    enc = build_code(spec)
+    n, k = enc.code_length, enc.code_dimension
+    b = mc.bits_per_symbol(s)
+    dec = build_decoder(dname, enc)
+    soft = dname in SOFT
+    rng = np.random.RandomState(case.get("seed", ctx.seed))
+    mod, dem = mc.build(s)
+    if mode == "train":
+        mod.train()
+        dem.train()
+        if hasattr(dem, "modulator"):
+            dem.modulator.train()
+    mc.reset(mod, dem)
+    model = ChannelCodeModel(enc, IdentityConstraint(), mod, C.PerfectChannel(), dem, dec)
+    if mode == "train":
+        model.train()
+    else:
+        model.eval()
+    for call_no, m in enumerate(case["blocks"]):
+        if (m * n) % b:
+            continue
+        M = (rng.rand(3, k * m) < 0.5).astype(np.float32)
+        x = torch.from_numpy(M.copy())
+        with quiet():
+            ok, out = ctx.call(lambda: model(x, noise_var=1.0) if soft else model(x), "C09.raises", cell, {**case, "call": call_no}, checker="c09:check_reuse")
+        if not ok:
+            return
+        out = (out[0] if isinstance(out, tuple) else out).detach().numpy()
+        ctx.ev()
+        ctx.nontrivial(cell, call_no, m, case.get("seed"))
+        if out.shape != M.shape or not np.array_equal(np.rint(out), M):
+            ctx.fail("C09.link_reused_model", cell, {**case, "call": call_no}, None, None, f"transmission #{call_no + 1} through the same pipeline object does not return its message", "c09:check_reuse")
+            return
+    ctx.cls("pipelines_reused_" + mode)
+
+
+def unit_reuse(ctx):
+    codes = [({"family": "hamming", "mu": 3, "extended": False, "info": "left"}, "syndrome"), ({"family": "hamming", "mu": 3, "extended": False, "info": "left"}, "bp"),
+             ({"family": "repetition", "n": 3}, "ml"), ({"family": "bch", "mu": 4, "delta": 5, "info": "left"}, "bm"), ({"family": "spc", "k": 4}, "wagner")]
+    schemes = [s for s in mc.all_schemes() if mc.kind(s) in ("memoryless", "alternating") and s["scheme"] != "identity" and s.get("order", 4) <= 16 and s.get("normalize", True)]
+    for spec, dname in codes:
+        for s in schemes:
+            for mode in ("train", "eval"):
+                for blocks in ([2, 2, 2], [2, 4, 2, 6], [6, 2, 2]):
+                    check_reuse(ctx, None, {"spec": spec, "decoder": dname, "scheme": s, "mode": mode, "blocks": blocks, "seed": ctx.seed})
+    ctx.sample({"reuse": "3-4 consecutive transmissions per model object, train and eval mode, block counts giving odd and even symbol counts"})
+
+
 def unit_codes(ctx, entries, schemes):
     for spec, decs in entries:
         for dname in decs:
@@ -230,4 +288,5 @@ def units(tier, seed):
         w = 3 + 5 * ("bm" in entry[1]) + 2 * len(entry[1])
         us.append(Unit(f"code_{i:02d}_{entry[0]['family']}_fast", "c09:unit_codes", {"entries": [entry], "schemes": fast}, w))
         us.append(Unit(f"code_{i:02d}_{entry[0]['family']}_psk", "c09:unit_codes", {"entries": [entry], "schemes": slow}, w))
+    us.append(Unit("reuse", "c09:unit_reuse", {}, 12))
     return us
